@@ -269,6 +269,13 @@ Section Job.
     apply path_jpath. exact Hpth.
   Qed.
 
+  Theorem depth_attained : forall c, In c (p_comps p) -> exists a x, In a (c_nodes c) /\ jpath j a x (c_depth c - 1)%Z.
+  Proof.
+    intros c Hc. destruct (proj2 comps_facts c Hc) as [[n s] [[Hne _] [He [Hn _]]]]. simpl in Hn, Hne.
+    destruct (enrich_depth_attained (jei j) (jeo j) jsym _ _ _ _ Hne He) as [a [x [Ha Hpth]]].
+    exists a, x. rewrite Hn. split; [exact Ha|apply path_jpath; exact Hpth].
+  Qed.
+
   Lemma jpath_nonneg : forall a x d, jpath j a x d -> (0 <= d)%Z.
   Proof. intros a x d H. apply path_jpath in H. exact (path_nonneg _ _ _ _ H). Qed.
 
